@@ -42,8 +42,17 @@ def pat_bindings(p, proj=()):
 
 def variant_name(p):
     """Last path segment(s) of a struct/tuple-struct pattern or constructor: `Some`, `LdapOp::Search`."""
-    d = p.get('ctor_of') or p.get('def') or p.get('text') or '?'
-    return short_def(d)
+    return short_def(adt_path(p))
+
+def adt_path(p):
+    """The def-path a struct / tuple-struct pattern or struct expression names.  `Self { .. }` resolves to the impl it is written in
+    (res 'selfty'), not to an item: there it is the struct the node's own type names - `Self` with braces is a struct (an enum's
+    variants are `Self::V { .. }`, which resolve to the variant) -, so that `Self { a, .. }` and `Name { a, .. }` are the same."""
+    if p.get('res') == 'selfty' and p.get('k') in ('PStruct', 'Struct') and p.get('ty'):
+        t = strip_refs(str(p['ty'])).split('<', 1)[0]
+        if t and not t.startswith('<'):
+            return t
+    return p.get('ctor_of') or p.get('def') or p.get('text') or '?'
 
 def short_def(d):
     segs = d.split('::')
